@@ -108,22 +108,39 @@ def run(sh):
         for i in range(0, len(specs), 64):
             run_batch(sh, specs[i:i + 64], "corpus", prof)
 
-    # 5. bytes: invalid UTF-8 / unreadable, entry and imported (small fixed family + random)
+    # 5. bytes: invalid UTF-8 / unreadable, entry and imported. Family: every kind of ill-formed sequence (lone
+    # continuation, lead truncated by the next byte or by the end of the file, overlong, surrogate, beyond U+10FFFF,
+    # 0xFE/0xFF, UTF-16 BOMs) x what precedes it (nothing, ASCII, multi-byte text, an open string) x what follows it
+    # (nothing = end of file, newline, closing text) x how the file is reached x the syntax its extension implies.
+    bad_seqs = ["80", "bf", "c3", "e2", "e282", "f0", "f09f", "f09f98", "c328", "e228", "e28228", "f09f28", "f09f9828",
+                "c080", "c1bf", "e08080", "e09fbf", "f0808080", "f08fbfbf", "eda080", "edbfbf", "f4908080", "f5808080",
+                "f888808080", "ff", "fe", "ff00", "fffe6100", "feff0061", "61f0288cbc"]
+    prefixes = ["", "a{b:c}\n".encode().hex(), "/* \u00e9 */ a{b:\"\u20ac\"}\n".encode().hex(), "a{b:\"".encode().hex(), "efbbbf"]
+    suffixes = ["", "0a", "\"}\n".encode().hex()]
+    contents = [{"hex": pre + b + suf} for b in bad_seqs for pre in prefixes for suf in suffixes]
+    contents += [{"err": "denied"}, {"hex": ""}, {"hex": "efbbbf"}, {"hex": "efbbbf" + "a{b:c}".encode().hex()}]
     specs = []
-    for how in ("@import", "@use", "@forward"):
-        for ext in ("scss", "sass", "css"):
-            for bad in ({"hex": "ff00"}, {"hex": "c328"}, {"hex": "efbbbfff"}, {"hex": "61f0288cbc"}, {"err": "denied"},
-                        {"hex": "eda080"}, {"hex": ""}):
-                specs.append({"entry": "/p/a.scss", "files": {"/p/a.scss": '%s "b";\na{b:c}' % how, "/p/b." + ext: bad}})
-                specs.append({"entry": "/p/b." + ext, "files": {"/p/b." + ext: bad}})
-    specs.append({"entry": "/p/missing.scss", "files": {}})
-    specs.append({"entry": "/p/a.scss", "files": {"/p/a.scss": '@import "missing";'}})
-    specs.append({"entry": "/p/a.scss", "files": {"/p/a.scss": '@use "a";'}})
-    specs.append({"entry": "/p/a.scss", "files": {"/p/a.scss": '@import "a";'}})
+    k = 0
+    for bad in contents:
+        for how in ("@import", "@use", "@forward", "load-css", "entry"):
+            for ext in ("scss", "sass", "css"):
+                k += 1
+                if k % sh.nshards != sh.shard:
+                    continue
+                if how == "entry":
+                    specs.append({"entry": "/p/b." + ext, "files": {"/p/b." + ext: bad}})
+                elif how == "load-css":
+                    specs.append({"entry": "/p/a.scss", "files": {"/p/a.scss": '@use "sass:meta";\na{@include meta.load-css("b")}', "/p/b." + ext: bad}})
+                else:
+                    specs.append({"entry": "/p/a.scss", "files": {"/p/a.scss": '%s "b";\na{b:c}' % how, "/p/b." + ext: bad}})
     if sh.shard == 0:
-        for i in range(0, len(specs), 64):
-            run_batch(sh, specs[i:i + 64], "bytes", "R")
-            run_batch(sh, [dict(s) for s in specs[i:i + 64]], "bytes", "D")
+        specs.append({"entry": "/p/missing.scss", "files": {}})
+        specs.append({"entry": "/p/a.scss", "files": {"/p/a.scss": '@import "missing";'}})
+        specs.append({"entry": "/p/a.scss", "files": {"/p/a.scss": '@use "a";'}})
+        specs.append({"entry": "/p/a.scss", "files": {"/p/a.scss": '@import "a";'}})
+    for i in range(0, len(specs), 64):
+        run_batch(sh, specs[i:i + 64], "bytes", "R")
+        run_batch(sh, [dict(s) for s in specs[i:i + 64]], "bytes", "D")
 
     # default-stack stratum (8 MiB, like a CLI user), moderate depths that a recursive-descent parser must survive
     if sh.shard == 1:
